@@ -77,3 +77,21 @@ PROPS["C07"] = dict(
 
 verus_unit("f64v", "f64", ["C07"], ["f64::BaseElement::new", "f64::Mul::mul", "traits::FieldElement::square"])
 verus_unit("f62v", "f62", ["C07"], ["f62::mul", "f62::add", "f62::sub", "f62::normalize", "f62::Add/Sub/Mul/Neg", "f62::new", "f62::as_int", "f62::double", "square", "f62::eq", "f62::exp"])
+
+for _u, _fns in (("f64x", ["f64::ExtensibleField<2>::{mul,square,mul_base,frobenius}", "f64::ExtensibleField<3>::{mul,square,mul_base,frobenius}"]),
+                 ("f62x", ["f62::ExtensibleField<2>::{mul,mul_base,frobenius}", "f62::ExtensibleField<3>::{mul,mul_base,frobenius}"]),
+                 ("f128x", ["f128::ExtensibleField<2>::{mul,mul_base,frobenius}"])):
+    verus_unit(_u, _u, ["C08"], _fns)
+
+PROPS["C08"] = dict(
+    level="proof", verus=True,
+    level_text="The bodies of every ExtensibleField<2>/<3> implementation (mul, square, mul_base, frobenius for the 62-, 64- and "
+               "128-bit fields) are cut out of /repo on every run and proved by Verus to compute, coefficient by coefficient, the "
+               "schoolbook product reduced by the documented irreducible polynomial (resp. the documented conjugation map), "
+               "modulo p, for all operands; the proof bookkeeping is generated mechanically from the body text.",
+    level_note="Assumed (cross-unit): the residue-level contracts of the base-field operators (+, -, *, neg, double, square, new), "
+               "which C07's units establish for the real code. Not covered by this check: QuadExtension/CubeExtension::inv, the "
+               "generic wrapper types' operator plumbing, the Frobenius constants being phi^p (they are compared with the documented "
+               "values only), slice reinterpretation.",
+    explanation="",
+)
